@@ -71,6 +71,7 @@ func (p *poolStream) Ev() Ev {
 	e["ver"] = ints(p.Ver)
 	e["secs"] = p.Secs
 	e["len"] = len(p.Bytes)
+	e["v3"] = b2i(strings.HasPrefix(p.Layout, "v3-"))
 	return e
 }
 
@@ -79,6 +80,11 @@ func (p *poolStream) Ev() Ev {
 func mkPool(r *rand.Rand, variant int) []*poolStream {
 	encs := []string{"i32", "s16", "i64", "none", "i16", "b4"}
 	enc := encs[variant%len(encs)]
+	// layout classes per variant: 0-2 current only; 3: 0.5.10/0.5.11; 4: three-section; 5: mixed
+	layoutClass := []string{"cur", "cur", "cur", "v0510", "v3", "mixed"}[variant%6]
+	if layoutClass != "cur" {
+		enc = []string{"i32", "i64", "i16", "b4"}[variant%4] // old layouts: fixed-width values
+	}
 	keysets := [][]string{
 		{},
 		{[]string{"a", "", "\x00\xff", "single-key"}[r.Intn(4)]},
@@ -87,18 +93,39 @@ func mkPool(r *rand.Rand, variant int) []*poolStream {
 		genKeys(r, []string{"uniform", "wide", "palette", "samehigh", "twosym", "mixed"}[r.Intn(6)], 60+r.Intn(120), 1+r.Intn(8)),
 	}
 	opts := [][4]int{all16[r.Intn(16)], all16[r.Intn(16)], {2, 2, 2, 2}, {1, 0, 0, 1}, all16[r.Intn(16)]}
+	v10 := []string{"v0510-nopref-0.5.10", "v0510-innpref-0.5.11", "v0510-allpref-0.5.10", "v0510-allpref-0.5.11", "v0510-nopref-0.5.11"}
 	pool := []*poolStream{}
 	for i, keys := range keysets {
+		layout := "cur"
+		switch layoutClass {
+		case "v0510":
+			layout = v10[r.Intn(len(v10))]
+		case "v3":
+			layout = "v3-" + v3Versions[r.Intn(len(v3Versions))]
+		case "mixed":
+			layout = []string{"cur", v10[r.Intn(len(v10))], "v3-" + v3Versions[r.Intn(len(v3Versions))]}[r.Intn(3)]
+		}
 		c := &TrieCase{Keys: keys, Enc: enc, Vals: mkVals(r, "C05", enc, len(keys)), Opt4: opts[i]}
-		st, _, _ := c.Build()
-		if st == nil {
-			panic("pool trie does not build")
+		sid := variant*10 + i + 1
+		if layout == "cur" {
+			st, _, _ := c.Build()
+			if st == nil {
+				panic("pool trie does not build")
+			}
+			b, err := st.Marshal()
+			if err != nil {
+				panic(err)
+			}
+			pool = append(pool, &poolStream{SID: sid, Case: c, Layout: "cur", Ver: headerVersion(b), Bytes: b, Secs: sectionLens(b)})
+			continue
 		}
-		b, err := st.Marshal()
-		if err != nil {
-			panic(err)
+		if strings.HasPrefix(layout, "v3-") {
+			c.Opt4 = [4]int{0, 0, 0, 0}
+			c.Vals = valsFromPattern(enc, len(keys), 0, int64(r.Intn(50)))
+		} else {
+			c.Opt4 = layoutOpt(layout, r.Intn(2))
 		}
-		pool = append(pool, &poolStream{SID: variant*10 + i + 1, Case: c, Layout: "cur", Ver: headerVersion(b), Bytes: b, Secs: sectionLens(b)})
+		pool = append(pool, legacyPoolStream(sid, c, layout))
 	}
 	return pool
 }
